@@ -19,6 +19,8 @@ Decided statically (DESIGN.md section 5, C20):
   R-C20-5  purity of the image writers: no mutable object with static / thread storage duration in writeImage, the
            format wrappers and their helpers.
   R-C20-6  the 64-bit counter value reaches the log through an integer insertion (no conversion to a floating type).
+  R-C20-7  the name pointers stored in events point into address-stable string storage.
+  R-C20-8  the utilisation divisor is a wall-clock interval at clock resolution (not truncated to whole ticks) or guarded.
 Not decided: equality of decoded pixel values (run-time contents), JSON escaping of user supplied names,
 nesting of begin/end pairs in the recorded history, what fopen/fwrite/ofstream do.
 """
@@ -775,8 +777,11 @@ def check_write_image(ctx, tu, f):
                 ctx.undecided(R, inst, 'row selector `%s` is neither y nor sizeY-1-y' % show(rowsel), tu.loc(n))
             good = False
     # ---- row buffer: allocation, stores, fwrite
+    if len(allocs) > 1:
+        stored = {w[0][1] for w in writes if w[0][0] == 'ptr'}
+        allocs = [a for a in allocs if ('@' + a[0].get('name', 'buf')) in stored]
     if len(allocs) != 1:
-        ctx.undecided(R, inst, 'expected one stack row buffer, found %d' % len(allocs), tu.fn_loc(f))
+        ctx.undecided(R, inst, 'expected one row buffer that the converted components are stored into, found %d' % len(allocs), tu.fn_loc(f))
         return
     vd, pv, _ = allocs[0]
     abytes = pv[1]
@@ -915,6 +920,7 @@ def c_string(value):
 def check_wrappers(ctx, tu):
     R = 'R-C20-2'
     n = 0
+    headers_of = {}
     for f in sorted(tu.functions.values(), key=lambda x: (x['f'], x['l'])):
         name = f['q'].split('::')[-1]
         if not f['q'].startswith(UTIL + 'write') or name == 'writeImage' or f['dep'] or tu.body(f) is None:
@@ -991,6 +997,7 @@ def check_wrappers(ctx, tu):
         if hdr is None:
             ctx.undecided(R, inst, 'header is not a string literal', tu.loc(call))
             continue
+        headers_of.setdefault(callee['id'], []).append(hdr)
         m = re.match(r'^(\S+)\n(.*)\n(.*)\n$', hdr, re.S)
         if not m:
             ctx.violation(R, inst, 'header %r is not three newline-terminated lines (magic, width height, maxval/scale)' % hdr,
@@ -1033,9 +1040,10 @@ def check_wrappers(ctx, tu):
         if good:
             ctx.ok(R, inst, '%s: %d x %s, %s, header %r' % (magic, N, comp_t, 'flipped' if flip else 'as given', hdr), tu.fn_loc(f))
     ctx.floor(R, n, 6, 'writePPM, writePGM and four writePFM specialisations')
+    return headers_of
 
 
-def check_header_use(ctx, tu, f):
+def check_header_use(ctx, tu, f, headers=None):
     """writeImage itself: fprintf(file, header, sizeX, sizeY) precedes the rows; the file is closed"""
     R = 'R-C20-2'
     inst = 'writeImage<%s> header' % ', '.join(f.get('targs') or [])
@@ -1046,8 +1054,74 @@ def check_header_use(ctx, tu, f):
     hdrp = [p['id'] for p in f['params'] if p['ct'].replace('const', '').replace(' ', '') == 'char*']
     calls = [(b, i, n) for b, i, n in g.stmts() if n.get('kind') == 'CallExpr' and tu.sd(n).get('q') in ('fprintf', 'std::fprintf')]
     hc = [(b, i, n) for b, i, n in calls if len(tu.call_parts(n)[2]) >= 2 and hdrp and tu.ref_decl(tu.call_parts(n)[2][1]) == hdrp[0]]
-    if len(hc) != 1 or len(ints) != 2:
-        ctx.undecided(R, inst, 'expected one fprintf of the header parameter', tu.fn_loc(f))
+    sn = [(b, i, n) for b, i, n in g.stmts() if n.get('kind') == 'CallExpr' and tu.sd(n).get('q') in ('snprintf', 'std::snprintf')
+          and len(tu.call_parts(n)[2]) >= 3 and hdrp and tu.ref_decl(tu.call_parts(n)[2][2]) == hdrp[0]]
+    if len(hc) + len(sn) != 1 or len(ints) != 2:
+        ctx.undecided(R, inst, 'expected one fprintf / snprintf of the header parameter', tu.fn_loc(f))
+        return
+    if sn:
+        b, i, n = sn[0]
+        a = tu.call_parts(n)[2]
+        cap = tu.sd(tu.strip(a[1])).get('cv')
+        bufd = tu.ref_decl(a[0])
+        if cap is None or bufd is None:
+            ctx.undecided(R, inst, 'buffer or capacity of the snprintf of the header is not a local array with a constant size', tu.loc(n))
+            return
+        cap = int(cap)
+        if [tu.ref_decl(x) for x in a[3:]] != ints:
+            ctx.violation(R, inst, 'the header conversions are fed `%s`; required (sizeX, sizeY) = width then height'
+                          % ', '.join(tu.show(x) for x in a[3:]), tu.loc(n), key=keyb + 'header-arguments')
+            return
+        # the formatted text must fit for every int width / height, or truncation must be detected
+        longest = None
+        for h in (headers or []):
+            fixed = len(re.sub(r'%[id]', '', h))
+            need = fixed + 2 * 10 + 1          # two non-negative ints of up to 10 digits, terminating NUL
+            if longest is None or need > longest[0]:
+                longest = (need, h)
+        if longest is None:
+            ctx.undecided(R, inst, 'the header strings passed to this instantiation are not known', tu.loc(n))
+            return
+        detected = False
+        holders = {n['id']}
+        par = tu.par(n)
+        hops = 0
+        while par is not None and hops < 6 and par.get('kind') in ('ImplicitCastExpr', 'ParenExpr'):
+            par = tu.par(par)
+            hops += 1
+        if par is not None and par.get('kind') == 'VarDecl':
+            holders.add(par['id'])
+        for x in tu.walk(tu.body(f)):
+            if x.get('kind') == 'BinaryOperator' and x.get('opcode') in ('<', '>', '<=', '>=', '==', '!='):
+                l_, r_ = (tu.strip(y, casts=True) for y in tu.kids(x))
+                for u, v in ((l_, r_), (r_, l_)):
+                    isres = u is not None and (u.get('id') in holders or (u.get('kind') == 'DeclRefExpr' and
+                                                                           u.get('referencedDecl', {}).get('id') in holders))
+                    cv_ = tu.sd(v).get('cv') if v is not None else None
+                    if cv_ is None and v is not None:
+                        pv_ = Evaluator(tu).ev(v)
+                        cv_ = str(pv_.const_value()) if pv_ is not None and pv_.const_value() is not None else None
+                    if isres and cv_ is not None and int(cv_) in (cap, cap - 1):
+                        detected = True
+        if longest[0] > cap and not detected:
+            ctx.violation(R, inst, 'the header is formatted with snprintf into `%s`, which holds %d characters; %r with two 10-digit '
+                          'sizes needs %d (with the terminator) and the result of snprintf is not compared with the capacity: a '
+                          'longer header is silently cut off, the file starts with a wrong or incomplete size line'
+                          % (tu.show(a[0]), cap, longest[1], longest[0]), tu.loc(n), key=keyb + 'header-truncated')
+            return
+        outs_ = [(bb, ii, nn) for bb, ii, nn in g.stmts() if nn.get('kind') == 'CallExpr' and
+                 tu.sd(nn).get('q') in ('fputs', 'std::fputs', 'fwrite', 'std::fwrite', 'fprintf', 'std::fprintf') and
+                 any(tu.ref_decl(y) == bufd for y in tu.call_parts(nn)[2])]
+        fw = [(bb, ii) for bb, ii, nn in g.stmts() if nn.get('kind') == 'CallExpr' and tu.sd(nn).get('q') in ('fwrite', 'std::fwrite')
+              and not any(tu.ref_decl(y) == bufd for y in tu.call_parts(nn)[2])]
+        if len(outs_) != 1 or not g.dominates((b.id, i), (outs_[0][0].id, outs_[0][1])):
+            ctx.undecided(R, inst, 'the formatted header is not written to the file exactly once', tu.loc(n))
+            return
+        if not fw or not all(g.dominates((outs_[0][0].id, outs_[0][1]), (bb.id, ii)) for bb, ii in fw):
+            ctx.violation(R, inst, 'the header is not written before the pixel rows on every path', tu.loc(n), key=keyb + 'header-order')
+            return
+        ctx.ok(R, inst, 'header formatted into %d characters (longest possible %d%s) and written before every fwrite'
+               % (cap, longest[0], ', truncation detected' if detected else ''), tu.loc(n))
         return
     b, i, n = hc[0]
     a = tu.call_parts(n)[2]
@@ -1105,14 +1179,14 @@ def check_images(ctx, tu):
     ctx.describe('R-C20-2', 'format table: magic <-> component type/count, `%i %i` fed (sizeX,sizeY), maxval 255 / negative '
                  'scale, rows flipped exactly for PPM/PGM, arguments handed through')
     n = 0
+    headers_of = check_wrappers(ctx, tu) or {}
     for f in sorted(tu.fns(q=UTIL + 'writeImage', dep=False), key=lambda x: str(x.get('targs'))):
         if tu.cfg(f) is None:
             continue
         n += 1
         check_write_image(ctx, tu, f)
-        check_header_use(ctx, tu, f)
+        check_header_use(ctx, tu, f, headers_of.get(f['id']))
     ctx.floor('R-C20-1', n, 6, 'writeImage instantiations reachable from the six format wrappers')
-    check_wrappers(ctx, tu)
     check_purity(ctx, tu)
 
 
@@ -2144,6 +2218,189 @@ def check_registry(ctx, tu, R):
     return n
 
 
+def check_cached_names(ctx, tu):
+    """R-C20-7: the name / category pointers stored in the events are the ones getCachedString returns; they must stay
+    valid until saveLog prints them, i.e. point into storage that never moves while names are added"""
+    R = 'R-C20-7'
+    ctx.describe(R, 'getCachedString returns a pointer into storage whose address is stable while further names are cached '
+                 '(a heap string behind a smart pointer, or a value of a node-based container), never into a std::string that is '
+                 'an element of a growing contiguous container')
+    fs = [f for f in tu.fns(q=TEL + '::getCachedString', dep=False) if tu.cfg(f) is not None]
+    if not fs:
+        ctx.broken('%s: anchor ThreadEventList::getCachedString not found' % R)
+        return
+    f = fs[0]
+    inst = 'ThreadEventList::getCachedString'
+    key = '%s|%s|%s|' % (R, tu.fn_file(f), inst)
+    rec = tu.records.get(f.get('recid'))
+    ftypes = {fd['name']: fd['ct'] for fd in rec['fields']} if rec else {}
+    g = tu.cfg(f)
+    verdicts = []
+
+    def storage_of(e, depth=0):
+        """('smart', text) | ('member', name) | ('param',) | None : where the std::string whose characters are returned lives"""
+        x = tu.strip(e, casts=True)
+        if x is None or depth > 8:
+            return None
+        k = x.get('kind')
+        if k in ('CXXOperatorCallExpr', 'CXXMemberCallExpr'):
+            sd, obj, args = tu.call_parts(x)
+            nm = sd.get('q', '').split('::')[-1]
+            if nm in ('operator->', 'operator*', 'get') and obj is not None and \
+                    re.search(r'std::(shared_ptr|unique_ptr)<std::basic_string<char>', tu.sd(tu.strip(obj)).get('ct', '')):
+                return ('smart', tu.show(obj))
+            if obj is not None:
+                return storage_of(obj, depth + 1)
+            return None
+        if k == 'MemberExpr':
+            nm = tu.member_of_this(x)
+            if nm is not None:
+                return ('member', nm)
+            ks = tu.kids(x)
+            return storage_of(ks[0], depth + 1) if ks else None
+        if k == 'UnaryOperator' and x.get('opcode') == '*':
+            return storage_of(tu.kids(x)[0], depth + 1)
+        if k == 'DeclRefExpr':
+            vd = tu.node(x.get('referencedDecl', {}).get('id'))
+            if vd is None:
+                return None
+            if vd.get('kind') == 'ParmVarDecl':
+                return ('param',)
+            if vd.get('kind') == 'VarDecl' and tu.kids(vd):
+                if re.search(r'std::(shared_ptr|unique_ptr)<std::basic_string<char>', vd.get('type', {}).get('qualType', '').replace('std::string', 'std::basic_string<char>')) \
+                        or 'shared_ptr<std::basic_string<char>' in tu.sd(x).get('ct', ''):
+                    return ('smart', vd.get('name'))
+                return storage_of(tu.kids(vd)[0], depth + 1)
+        return None
+
+    for b, i, x in g.stmts():
+        if x.get('kind') != 'ReturnStmt' or not tu.kids(x):
+            continue
+        v = tu.strip(tu.kids(x)[0], casts=True)
+        if v is None or v.get('kind') in ('CXXNullPtrLiteralExpr', 'GNUNullExpr', 'IntegerLiteral'):
+            continue
+        if v.get('kind') == 'CXXMemberCallExpr' and tu.sd(v).get('q', '').split('::')[-1] in ('c_str', 'data') and \
+                tu.sd(v).get('q', '').startswith('std::basic_string'):
+            st = storage_of(tu.call_parts(v)[1])
+            verdicts.append((st, x))
+        else:
+            verdicts.append((None, x))
+    growth = {}
+    for fn in tu.functions.values():
+        if fn.get('rec') != TEL or tu.body(fn) is None:
+            continue
+        for x in tu.walk(tu.body(fn)):
+            if x.get('kind') == 'CXXMemberCallExpr':
+                sd, obj, args = tu.call_parts(x)
+                nm = sd.get('q', '').split('::')[-1]
+                m = tu.member_of_this(obj) if obj is not None else None
+                if m is not None and nm in ('push_back', 'emplace_back', 'insert', 'emplace', 'resize', 'reserve', 'shrink_to_fit'):
+                    if m not in growth or (nm in ('push_back', 'emplace_back') and
+                                           tu.sd(growth[m]).get('q', '').split('::')[-1] not in ('push_back', 'emplace_back')):
+                        growth[m] = x
+    good = True
+    if not verdicts:
+        ctx.undecided(R, inst, 'no returned string pointer found', tu.fn_loc(f))
+        return
+    for st, x in verdicts:
+        if st is None:
+            ctx.undecided(R, inst, 'the storage behind the returned pointer `%s` is not understood' % tu.show(tu.kids(x)[0]), tu.loc(x))
+            good = False
+        elif st[0] == 'smart':
+            continue
+        elif st[0] == 'param':
+            ctx.undecided(R, inst, 'returns a pointer into a string parameter', tu.loc(x))
+            good = False
+        elif st[0] == 'member':
+            ct = ftypes.get(st[1], '')
+            contiguous = re.match(r'^std::(vector|basic_string)<', ct) or ct.startswith('rkcommon::containers::')
+            by_value = 'std::basic_string<char>' in ct and not re.search(r'(shared_ptr|unique_ptr)<std::basic_string<char>', ct)
+            if re.match(r'^std::vector<', ct) and by_value and st[1] in growth:
+                ctx.violation(R, inst, 'returns the characters of a std::string stored by value in the vector `%s`; `%s` makes the vector '
+                              'grow, which moves its elements - a short string keeps its characters inside the object, so the '
+                              'pointers handed out earlier (and stored in the recorded events) dangle when saveLog prints them'
+                              % (st[1], tu.show(growth[st[1]])), tu.loc(x), key=key + 'cached-name-relocated')
+                good = False
+            elif re.match(r'^std::(unordered_map|map|list|forward_list|unordered_set|set|deque)<', ct):
+                continue          # node based (or end-insertion stable): references to elements survive insertions
+            else:
+                ctx.undecided(R, inst, 'returns a pointer into member `%s` (%s); whether its elements keep their address is not known'
+                              % (st[1], ct), tu.loc(x))
+                good = False
+    if good:
+        ctx.ok(R, inst, '%d returned pointer(s), all into address-stable string storage' % len(verdicts), tu.fn_loc(f))
+
+
+def check_utilization_divisor(ctx, tu):
+    """R-C20-8: the CPU utilisation printed for an end event is elapsed_cpu / elapsed_wall; the divisor must not be a
+    time difference truncated to whole ticks of a coarser unit (0 for any interval shorter than one tick -> inf / nan in
+    the JSON) unless a zero divisor is excluded by a test"""
+    R = 'R-C20-8'
+    ctx.describe(R, 'cpuUtilization divides by the wall-clock interval at the clock\'s own resolution (floating duration), or guards '
+                 'the division: an interval truncated to whole microseconds / milliseconds is 0 for short begin/end pairs')
+    fs = [f for f in tu.fns(q=TR + 'cpuUtilization', dep=False) if tu.cfg(f) is not None]
+    if not fs:
+        ctx.broken('%s: anchor cpuUtilization not found' % R)
+        return
+    f = fs[0]
+    inst = 'cpuUtilization'
+    key = '%s|%s|%s|' % (R, tu.fn_file(f), inst)
+    g = tu.cfg(f)
+    divs = [(b, i, x) for b, i, x in g.stmts() if x.get('kind') == 'BinaryOperator' and x.get('opcode') == '/' and
+            re.search(r'float|double', tu.sd(x).get('ct', ''))]
+    if not divs:
+        ctx.undecided(R, inst, 'no floating point division found', tu.fn_loc(f))
+        return
+
+    def casts_in(e, depth=0, seen=None):
+        seen = set() if seen is None else seen
+        out = []
+        if e is None or depth > 5:
+            return out
+        for y in tu.walk(e):
+            if y.get('kind') == 'CallExpr' and tu.sd(y).get('q') == 'std::chrono::duration_cast':
+                out.append(y)
+            if y.get('kind') == 'DeclRefExpr':
+                did = y.get('referencedDecl', {}).get('id')
+                vd = tu.node(did)
+                if vd is not None and vd.get('kind') == 'VarDecl' and tu.kids(vd) and did not in seen:
+                    seen.add(did)
+                    out += casts_in(tu.kids(vd)[0], depth + 1, seen)
+        return out
+
+    good = True
+    n_ok = 0
+    for b, i, x in divs:
+        den = tu.kids(x)[1]
+        cs = casts_in(den)
+        if not cs:
+            continue           # not a time interval
+        trunc = [c for c in cs if re.match(r'^std::chrono::duration<(long|int|long long|short|unsigned long)\b', tu.sd(c).get('ct', ''))]
+        if not trunc:
+            n_ok += 1
+            continue
+        # a test of the divisor that dominates the division excuses it
+        dvars = {y.get('referencedDecl', {}).get('id') for y in tu.walk(den) if y.get('kind') == 'DeclRefExpr'}
+        guarded = False
+        dom = g.dominators()
+        for bb in g.blocks.values():
+            if bb.cond and len(bb.succ) == 2 and bb.id in dom.get(b.id, ()) and bb.id != b.id:
+                c = tu.node(bb.cond)
+                if any(y.get('kind') == 'DeclRefExpr' and y.get('referencedDecl', {}).get('id') in dvars for y in tu.walk(c)):
+                    guarded = True
+        if guarded:
+            n_ok += 1
+            continue
+        ctx.violation(R, inst, 'the divisor `%s` is built from `%s` of type %s: the interval is truncated to whole ticks, so it is 0 '
+                      'for a begin/end pair closed within one tick and the utilisation becomes inf or nan, which saveLog prints into '
+                      'the JSON' % (tu.show(den), tu.show(trunc[0]), tu.sd(trunc[0]).get('ct')), tu.loc(x), key=key + 'truncated-divisor')
+        good = False
+    if good and n_ok:
+        ctx.ok(R, inst, '%d division(s) by a wall-clock interval kept at clock resolution (or guarded)' % n_ok, tu.fn_loc(f))
+    elif good:
+        ctx.undecided(R, inst, 'no division by a time interval recognised', tu.fn_loc(f))
+
+
 def check_value_fidelity(ctx, tu):
     """R-C20-6: the 64-bit counter value of an event reaches the log through an integer insertion; a conversion to a
     floating type on the way loses digits (ostream prints 6 significant digits)"""
@@ -2645,13 +2902,15 @@ def run(ctx):
     ctx.assume('the pixel pointer handed to a wrapper addresses sizeX*sizeY pixels; sizeX, sizeY >= 0 and N_COMP*sizeX*sizeof '
                'fits in int; fopen/fprintf/fwrite/std::ofstream behave as documented')
     ctx.assume('names, categories and thread names contain no characters that need JSON escaping; numbers print as finite '
-               'decimal numbers; recorded histories have matching begin/end pairs (the unmatched-end error path may drop events)')
+               'decimal numbers (begin and end of a pair have different steady_clock readings); recorded histories have matching begin/end pairs (the unmatched-end error path may drop events)')
     tu, tt = ctx.front.parse_many([dict(unit='drivers/c20_writers.cpp', config='TBB'),
                                    dict(unit='rkcommon/tracing/Tracing.cpp', config='TBB')])
     check_images(ctx, tu)
     check_savelog(ctx, tt)
     check_recording(ctx, tt)
     check_value_fidelity(ctx, tt)
+    check_cached_names(ctx, tt)
+    check_utilization_divisor(ctx, tt)
     if ctx.tier == 'thorough':
         tu2, tt2 = ctx.front.parse_many([dict(unit='drivers/c20_writers.cpp', config='DEBUG', std='gnu++17', simd=False),
                                          dict(unit='rkcommon/tracing/Tracing.cpp', config='DEBUG', std='gnu++17')])
@@ -2659,5 +2918,7 @@ def run(ctx):
         check_savelog(ctx, tt2)
         check_recording(ctx, tt2)
         check_value_fidelity(ctx, tt2)
+        check_cached_names(ctx, tt2)
+        check_utilization_divisor(ctx, tt2)
     from rkstatic import selftest
     selftest.run(ctx)
